@@ -206,7 +206,8 @@ def run(ctx):
     bound = 1 if ctx.quick else 2
     specs = [{
         "module": "checks.c10", "params": params, "bound": bound,
-        "opts": {"time_horizon": 30.0, "drain": 2.0, "max_points": 8000, "free_switch_cost": 1},
+        "opts": {"time_horizon": 30.0, "drain": 2.0, "max_points": 8000, "free_switch_cost": 1,
+                     "time_jump_cost": None if ctx.quick else 1},
         "budget": 3000 if ctx.quick else 30000,
     } for params in scenario_params(ctx.tier)]
     ctx.pmap(H.shard, specs)
